@@ -36,7 +36,7 @@ func (c11) Budget(tier string) int {
 func (c11) Describe() engine.Info {
 	return engine.Info{
 		Rule: "class image: file length 0..0x150 / non-multiple of 16 KiB / random bytes / declared size != actual / missing file; class header: every cart type byte 00-FF x ROM size code x RAM size code with a consistent image (index-enumerated); for every image that constructs: class single writes every value 00-FF to an address of every control region and reads every window after each; class history random multi-step write/read sequences anywhere in 0000-FFFF; class code runs random bytes / generated programs for 2k-50k cycles with random interrupt lines and key events. " +
-			"Oracle: no panic from emulator frames after construction. Signature = (class, cart type, construction outcome, how the run ended). One image in three repeats logo and header at the start of every page (multi-game cartridges).",
+			"Oracle: no panic from emulator frames after construction. Signature = (class, cart type, construction outcome, how the run ended). One image in three repeats logo and header at the start of every page (multi-game cartridges). Class image also takes dumps trimmed by 1..0x4001 bytes for the controller families that use the image as it is.",
 		Assumptions:    []string{"a panic during gameboy.New is a legitimate construction failure", "an io.Writer error on the serial port makes the emulator panic by design and is not injected"},
 		RequiredProbes: []string{"construction_failed", "construction_ok", "deliberate_stop_undefined_opcode", "ran_to_budget", "single_write_sweep"},
 		RealComponents: realComponents, StubComponents: stubComponents,
